@@ -279,13 +279,11 @@ def check(c):
               and 'Q_DEFAULT' in norm(n.func.value)]
         c.floor('C05.indep', 'removal from the default queue', len(dq), 1)
         # (4) default queue itself is skipped
-        par = c.idx.parent[id(lp)]
-        skip = [s for s in (par.body if isinstance(par, ast.For) else [])
-                if isinstance(s, ast.If) and c.find(
-                    s.test, 'qname == self.Q_DEFAULT')
-                and isinstance(s.body[-1], ast.Continue)]
+        # (`if qname == Q_DEFAULT: continue` or the member loop under the
+        # negated test: either way the loop is reached only for other queues)
         c.ob('C05.indep', f'{mi.fq} :: default queue not processed as an '
-             'owner', bool(skip), c.where(lp, mi), '')
+             'owner', c.holds(lp, '!(qname == self.Q_DEFAULT)'),
+             c.where(lp, mi), '')
     ini = c.func(Q, 'IndepQueueManager.__init__')
     c.floor('C05.indep', 'queues = self._make_indep(queues)', len(
         c.find(ini, 'self._make_indep(_)')), 1)
